@@ -96,40 +96,42 @@ theorem dataOf_bytes (H : Bytes → Bytes) (mode : Mode) (c : Option Cell) (e : 
           | false => simpa [readCnt, hg, Cell.bytes] using hx
   · simpa [hi] using he
 
+/-- a record without its bytes: active flag and count / deactivation height. -/
+def ctag : Option Cell → Option (Bool × Nat)
+  | some (.rc _ a n) => some (a, n)
+  | _ => none
+
+/-- the record (without bytes) `Flush` leaves under a hash whose delta is not zero, given the number
+of occurrences in the new trie. -/
+def tagAfter (mode : Mode) (idx : Nat) (occ' : Nat) : Option (Bool × Nat) :=
+  if occ' = 0 then (if mode.gcF then some (false, idx) else none) else some (true, occ')
+
 /-- what `Flush` may do to one record. -/
 def CellMove (mode : Mode) (idx : Nat) (c c' : Option Cell) : Prop :=
   c' = c ∨ (∃ b n, c' = some (.rc b true n)) ∨ (mode.gcF = true ∧ ∃ b, c' = some (.rc b false idx)) ∨
     (mode.gcF = false ∧ c' = none)
 
-/-- C11.2/3 core: one block. If the store is exact for `t`, the map is clean, and the recorded
-events account for the change of occurrences from `t` to `t'` (`delta_exact`), then `Flush` does not
-panic and leaves the store exact for `t'`, the map clean again. -/
-theorem flush_exact (H : Bytes → Bytes) (mode : Mode) (hrc : mode.rc = true) (idx : Nat)
-    (m : RcMap) (s : Store) (t t' : Node) (evs : Evs)
-    (hg : MapGood H m s) (hx : Exact H mode s t)
-    (hocc : ∀ h, (occH H t' h : Int) = occH H t h + net (hP H h) evs) :
-    ∃ m' s', flush mode idx (applyEvs H m evs) s = some (m', s') ∧ MapGood H m' s' ∧ Exact H mode s' t' ∧
-      ∀ k, CellMove mode idx (sget s k) (sget s' k) := by
-  obtain ⟨hnd1, hok1, hde⟩ := applyEvs_spec H evs m hg.nodup hg.ok
-  -- facts about an entry of the updated map
-  have hent : ∀ k e1, mget (applyEvs H m evs) k = some e1 →
-      e1.delta = net (hP H k) evs ∧ (e1.initial ≠ 0 → activeCnt s k = e1.initial) ∧ H e1.bytes = k := by
+/-- C11.2/3 core, stated for the refcount map as it is just before `Flush` (whatever happened to it
+during the block — events, re-loads of nodes from the store): if the store is exact for `t`, every
+cached count that is set equals the stored one, and the map's deltas account for the change of
+occurrences from `t` to `t'`, then `Flush` does not panic and leaves the store exact for `t'`, the
+map clean again. -/
+theorem flush_exact_mid (H : Bytes → Bytes) (mode : Mode) (hrc : mode.rc = true) (idx : Nat)
+    (m1 : RcMap) (s : Store) (t t' : Node)
+    (hnd1 : (mkeys m1).Nodup) (hok1 : MapOK H m1)
+    (hcache1 : ∀ k e, mget m1 k = some e → e.initial ≠ 0 → activeCnt s k = e.initial)
+    (hx : Exact H mode s t)
+    (hocc : ∀ h, (occH H t' h : Int) = occH H t h + dlt m1 h) :
+    ∃ m' s', flush mode idx m1 s = some (m', s') ∧ MapGood H m' s' ∧ Exact H mode s' t' ∧
+      (∀ k, CellMove mode idx (sget s k) (sget s' k)) ∧
+      (∀ k, ctag (sget s' k) = if dlt m1 k = 0 then ctag (sget s k) else tagAfter mode idx (occH H t' k)) := by
+  -- facts about an entry of the map
+  have hent : ∀ k e1, mget m1 k = some e1 →
+      e1.delta = dlt m1 k ∧ (e1.initial ≠ 0 → activeCnt s k = e1.initial) ∧ H e1.bytes = k := by
     intro k e1 h1
-    have hd := (hde k).1
-    have hi := (hde k).2
-    simp only [dlt, ini, h1] at hd hi
-    refine ⟨?_, ?_, hok1 k e1 h1⟩
-    · cases hm : mget m k with
-      | none => simp [hm] at hd; exact hd
-      | some e0 => simp [hm, hg.zero k e0 hm] at hd; exact hd
-    · intro hne
-      cases hm : mget m k with
-      | none => simp [hm] at hi; exact absurd hi hne
-      | some e0 =>
-        simp only [hm] at hi
-        rw [hi]; exact hg.cache k e0 hm (by rw [← hi]; exact hne)
+    exact ⟨by simp [dlt, h1], hcache1 k e1 h1, hok1 k e1 h1⟩
   -- the per-entry step never panics and is what `urc_exact` says
-  have hstep : ∀ k e1, mget (applyEvs H m evs) k = some e1 → e1.delta ≠ 0 →
+  have hstep : ∀ k e1, mget (m1) k = some e1 → e1.delta ≠ 0 →
       estep mode idx (sget s k) e1 = some
         ((if occH H t' k = 0 then (if mode.gcF then some (.rc (dataOf mode (sget s k) e1) false idx) else none)
           else some (.rc (dataOf mode (sget s k) e1) true (occH H t' k))),
@@ -143,31 +145,24 @@ theorem flush_exact (H : Bytes → Bytes) (mode : Mode) (hrc : mode.rc = true) (
         simp only [activeCnt] at hc
         rw [hc, hdel]; omega)
     simp only [estep, hd, if_false, hrc, if_true, hu]
-  obtain ⟨m', s', hf, hcell, hme, hnd'⟩ := flush_spec mode idx (applyEvs H m evs) s hnd1 (by
+  obtain ⟨m', s', hf, hcell, hme, hnd'⟩ := flush_spec mode idx (m1) s hnd1 (by
     intro k e1 h1
     by_cases hd : e1.delta = 0
     · simp [estep, hd]
     · rw [hstep k e1 h1 hd]; simp)
   -- per-key description of the new record
   have hnew : ∀ k, (sget s' k = sget s k ∧ occH H t' k = occH H t k ∧ mget m' k = none) ∨
-      (∃ e1, mget (applyEvs H m evs) k = some e1 ∧ e1.delta ≠ 0 ∧
+      (∃ e1, mget (m1) k = some e1 ∧ e1.delta ≠ 0 ∧
         sget s' k = (if occH H t' k = 0 then (if mode.gcF then some (.rc (dataOf mode (sget s k) e1) false idx) else none)
           else some (.rc (dataOf mode (sget s k) e1) true (occH H t' k))) ∧
         mget m' k = (if occH H t' k = 0 then none else some { e1 with initial := occH H t' k, delta := 0 })) := by
     intro k
-    cases h1 : mget (applyEvs H m evs) k with
+    cases h1 : mget (m1) k with
     | none =>
       left
-      have hd := (hde k).1
-      have hz : dlt m k = 0 := by
-        simp only [dlt]
-        cases hm : mget m k with
-        | none => rfl
-        | some e0 => exact hg.zero k e0 hm
-      rw [hz] at hd
-      simp only [dlt, h1] at hd
       refine ⟨by rw [hcell k, h1]; rfl, ?_, by rw [hme k, h1]; rfl⟩
       have := hocc k
+      simp only [dlt, h1] at this
       omega
     | some e1 =>
       by_cases hd : e1.delta = 0
@@ -180,7 +175,7 @@ theorem flush_exact (H : Bytes → Bytes) (mode : Mode) (hrc : mode.rc = true) (
         refine ⟨e1, rfl, hd, ?_, ?_⟩
         · rw [hcell k, h1]; simp only [cellAfter, hstep k e1 h1 hd]
         · rw [hme k, h1]; simp only [entAfter, hstep k e1 h1 hd]
-  refine ⟨m', s', hf, ⟨hnd', ?_, ?_, ?_⟩, ⟨?_, ?_, ?_⟩, ?_⟩
+  refine ⟨m', s', hf, ⟨hnd', ?_, ?_, ?_⟩, ⟨?_, ?_, ?_⟩, ?_, ?_⟩
   · -- MapOK
     intro k e' he'
     rcases hnew k with ⟨_, _, hn⟩ | ⟨e1, h1, _, _, hn⟩
@@ -259,5 +254,78 @@ theorem flush_exact (H : Bytes → Bytes) (mode : Mode) (hrc : mode.rc = true) (
         | false => exact Or.inr (Or.inr (Or.inr ⟨hgc, by simp [hc, hz, hgc]⟩))
         | true => exact Or.inr (Or.inr (Or.inl ⟨hgc, dataOf mode (sget s k) e1, by simp [hc, hz, hgc]⟩))
       · exact Or.inr (Or.inl ⟨dataOf mode (sget s k) e1, occH H t' k, by simp [hc, hz]⟩)
+
+  · -- tags
+    intro k
+    rcases hnew k with ⟨hs, _, hn⟩ | ⟨e1, h1, hd, hc, _⟩
+    · have hz : dlt m1 k = 0 := by
+        cases h1 : mget m1 k with
+        | none => simp [dlt, h1]
+        | some e1 =>
+          by_cases hd : e1.delta = 0
+          · simp [dlt, h1, hd]
+          · exfalso
+            have := hme k
+            rw [h1, hn] at this
+            simp only [entAfter, hstep k e1 h1 hd] at this
+            have hc := hcell k
+            rw [h1] at hc
+            simp only [cellAfter, hstep k e1 h1 hd] at hc
+            -- the entry has a non-zero delta: it is rewritten, never left alone
+            by_cases hz : occH H t' k = 0
+            · -- entry removed and record deactivated/deleted: compare with hs (record unchanged)
+              have hd' := (hent k e1 h1).1
+              have ho := hocc k
+              rw [← hd'] at ho
+              have hcnt := hx.count k
+              simp only [activeCnt] at hcnt
+              rw [hs] at hc
+              simp only [hz, if_true] at hc
+              cases hgc : mode.gcF with
+              | false =>
+                simp only [hgc, Bool.false_eq_true, if_false] at hc
+                rw [hc] at hcnt; simp [actC] at hcnt; omega
+              | true =>
+                simp only [hgc, if_true] at hc
+                rw [hc] at hcnt; simp [actC] at hcnt; omega
+            · simp [hz] at this
+      rw [hz, hs]; simp
+    · have hdz : ¬ dlt m1 k = 0 := by simp [dlt, h1, hd]
+      rw [if_neg hdz, hc]
+      unfold tagAfter
+      by_cases hz : occH H t' k = 0
+      · simp only [hz, if_true]
+        cases mode.gcF <;> simp [ctag]
+      · simp [hz, ctag]
+
+/-- C11.2/3 core: one block, the map updated by the recorded events only. -/
+theorem flush_exact (H : Bytes → Bytes) (mode : Mode) (hrc : mode.rc = true) (idx : Nat)
+    (m : RcMap) (s : Store) (t t' : Node) (evs : Evs)
+    (hg : MapGood H m s) (hx : Exact H mode s t)
+    (hocc : ∀ h, (occH H t' h : Int) = occH H t h + net (hP H h) evs) :
+    ∃ m' s', flush mode idx (applyEvs H m evs) s = some (m', s') ∧ MapGood H m' s' ∧ Exact H mode s' t' ∧
+      (∀ k, CellMove mode idx (sget s k) (sget s' k)) ∧
+      (∀ k, ctag (sget s' k) =
+        if net (hP H k) evs = 0 then ctag (sget s k) else tagAfter mode idx (occH H t' k)) := by
+  obtain ⟨hnd1, hok1, hde⟩ := applyEvs_spec H evs m hg.nodup hg.ok
+  have hz : ∀ k, dlt m k = 0 := by
+    intro k
+    simp only [dlt]
+    cases hm : mget m k with
+    | none => rfl
+    | some e0 => exact hg.zero k e0 hm
+  have hdl : ∀ k, dlt (applyEvs H m evs) k = net (hP H k) evs := fun k => by rw [(hde k).1, hz k]; omega
+  have hc1 : ∀ k e, mget (applyEvs H m evs) k = some e → e.initial ≠ 0 → activeCnt s k = e.initial := by
+    intro k e1 h1 hne
+    have hi := (hde k).2
+    simp only [ini, h1] at hi
+    cases hm : mget m k with
+    | none => simp [hm] at hi; exact absurd hi hne
+    | some e0 =>
+      simp only [hm] at hi
+      rw [hi]; exact hg.cache k e0 hm (by rw [← hi]; exact hne)
+  obtain ⟨m', s', hf, h1, h2, h3, h4⟩ := flush_exact_mid H mode hrc idx _ s t t' hnd1 hok1 hc1 hx
+    (by intro h; rw [hdl h, hocc h])
+  exact ⟨m', s', hf, h1, h2, h3, fun k => by rw [h4 k, hdl k]⟩
 
 end NeoModel.MptRc
